@@ -117,8 +117,8 @@ def run_one(si, total, engine, iters, zero, kind, seed, opt=None):
                      total=total if total is not None else 41.0, noise_mult=0.0 if kind == 'uniform' else 2.0,
                      kinds=['dense', 'none', 'sparse', 'linop'] if kind == 'uniform' else None)
     zeros = {}
-    if zero and struct:
-        cl = max(struct, key=len)
+    if zero:
+        cl = max(struct, key=len) if struct else ('A', 'B')
         zeros = {tuple(cl): [tuple([0] * len(cl))]}
     eng = FactoredInference(Domain(attrs, sizes), iters=iters, structural_zeros=zeros, metric=(opt[0] if opt else 'L2'))
     with M.quiet():
@@ -152,8 +152,6 @@ def run_job(job):
     for total, engine, iters, zero, kind in itertools.product(TOTALS, ['MD', 'RDA', 'IG'], ITERS, [False, True], ['noisy', 'uniform']):
         if kind == 'uniform' and (zero or iters not in (1, 10)):
             continue
-        if zero and si == 0:
-            continue
         case = {'si': si, 'total': total, 'engine': engine, 'iters': iters, 'zero': zero, 'kind': kind, 'seed': job['seed']}
         struct, fails = run_one(si, total, engine, iters, zero, kind, job['seed'])
         acc.case(dict(case, struct=struct), nontrivial=len(struct) >= 2)
@@ -161,6 +159,25 @@ def run_job(job):
         for kd in sorted({k for k, _ in fails}):
             acc.violate(dict(case, struct=[list(c) for c in struct]), {'kind': kd, 'engine': engine, 'empty': len(struct) == 0, 'param_runaway': LAST_RUNAWAY},
                         'structure %r %s: %s' % (struct, case, '; '.join(m for k, m in fails if k == kd)[:600]))
+    # early exit after a warm start: a real first call, then a call that returns before iterating (empty list / exact answers)
+    if si in (3, 4, 10, 1001):
+        from mbi import Domain, FactoredInference
+        for engine, second in itertools.product(['MD', 'RDA', 'IG'], ['empty', 'uniform']):
+            attrs_, sizes_ = (M.ATTRS4, M.SIZES4) if si >= 1000 else (M.ATTRS3, M.SIZES3)
+            st = STRUCTS4[si - 1000] if si >= 1000 else all_structs()[si]
+            p1 = M.Problem(attrs_, sizes_, st, si, 'pos', job['seed'], total=37.5)
+            p2 = M.Problem(attrs_, sizes_, st, si, 'uniform', job['seed'], total=37.5, noise_mult=0.0, kinds=['dense', 'none', 'sparse', 'linop'])
+            eng = FactoredInference(Domain(attrs_, sizes_), iters=10, warm_start=True, structural_zeros={tuple(st[0]): [tuple([0] * len(st[0]))]})
+            with M.quiet():
+                eng.estimate(p1.fresh_measurements(), total=37.5, engine=engine)
+                model = eng.estimate([] if second == 'empty' else p2.fresh_measurements(), total=37.5, engine=engine)
+            fails = coherence_failures(model, attrs_, sizes_)
+            case = {'si': si, 'warm-history': ['noisy', second], 'engine': engine, 'seed': job['seed']}
+            acc.case(case)
+            acc.outcome('warm-early-exit:%s' % ('ok' if not fails else 'FAIL'))
+            for kd in sorted({k for k, _ in fails}):
+                acc.violate(case, {'kind': kd, 'engine': engine, 'empty': second == 'empty', 'param_runaway': LAST_RUNAWAY, 'warm_history': True},
+                            'structure %r, warm start, second call %s: %s' % (st, second, '; '.join(m for k, m in fails if k == kd)[:600]))
     # fixed-step mirror descent (L2 and L1 metric)
     for total, iters, opt in itertools.product([1.0, 37.5, None], [1, 3, 10], [('L2', 5.0), ('L2', 50.0), ('L1', 2.0), ('L1', 20.0)]):
         if si == 0:
@@ -177,6 +194,14 @@ def run_job(job):
 
 
 def replay(case):
+    if 'warm-history' in case:
+        from .. import core
+        core.MAX_VIOL_PER_JOB = 10 ** 6
+        acc = run_job({'si': case['si'], 'seed': case['seed']})
+        vs = [v for v in acc.violations if v['case'].get('warm-history') == case['warm-history'] and v['case'].get('engine') == case['engine']]
+        for v in vs:
+            print(v['msg'])
+        return vs
     struct, fails = run_one(case['si'], case['total'], case['engine'], case['iters'], case['zero'], case['kind'], case['seed'], opt=tuple(case['opt']) if case.get('opt') else None)
     for k, m in fails:
         print(k, m)
